@@ -255,7 +255,17 @@ def run_cli_case(impl, case, workdir, timeout=20, cover=False):
             cmd = ["unshare", "-m", "sh", "-c", inner, "sh"] + cmd
         try:
             if case.get("fifo"):
-                p = run_with_fifos(cmd, d, full_env, case, timeout)
+                # a time-out of a pipe-fed run is confirmed before it is reported: twice more with the pipes, and the run must also end on plain files -
+                # a program that really hangs on a pipe does so every time; a stall of the feeding threads on a loaded machine does not repeat
+                for attempt in range(3):
+                    try:
+                        p = run_with_fifos(cmd, d, full_env, case, timeout); break
+                    except subprocess.TimeoutExpired:
+                        if attempt == 2: raise
+                        for fp in case["fifo"]:
+                            try: os.unlink(os.path.join(d, fp))
+                            except OSError: pass
+                            os.mkfifo(os.path.join(d, fp))
             else:
                 p = subprocess.run(cmd, cwd=d, env=full_env, stdout=subprocess.PIPE, stderr=subprocess.PIPE, timeout=timeout)
         except subprocess.TimeoutExpired:
